@@ -148,7 +148,7 @@ def run(ctx):
             stats["module_fail"] += 1
     kc.lap(ctx, t0, "emulated modules built")
     # 5. run: Serial/OpenMP through the real JIT, the launcher backends through the emulation layer
-    runs = kc.run(ctx, batches, res, MODES, variant="fast", mods=mods, fanout=fan, cache_name="cache-fast")
+    runs = kc.run(ctx, batches, res, MODES, variant="fast", mods=mods, fanout=fan, cache_name="cache-fast", timeout=5400)
     kc.lap(ctx, t0, "ran (plain)")
     compare(ctx, batches, res, runs, MODES, stats, "plain")
     # 6. the same kernels with the translated source compiled with -fsanitize=address (out-of-array accesses of the
@@ -158,7 +158,7 @@ def run(ctx):
         exe_asan, lib_asan = kc.harness(ctx, "asan")
         amods = kc.build_modules(ctx, batches, res, lib_asan, [m for m in asan_modes if m in LAUNCHER_MODES], tag=".asan",
                                  flags=["-O0", "-g1", "-fsanitize=address", "-fno-omit-frame-pointer"], workers=fan)
-        aruns = kc.run(ctx, batches, res, asan_modes, variant="asan", mods=amods, fanout=fan, cache_name="cache-asan",
+        aruns = kc.run(ctx, batches, res, asan_modes, variant="asan", mods=amods, fanout=fan, cache_name="cache-asan", timeout=9000,
                        props={"compiler_flags": "-O0 -g1 -fsanitize=address -fno-omit-frame-pointer"},
                        env_extra={"OCCA_CXXFLAGS": "-O0 -g1 -fsanitize=address -fno-omit-frame-pointer",
                                   "OCCA_LDFLAGS": "-fsanitize=address"})
